@@ -27,3 +27,7 @@ pub mod datamodel;
 pub mod event_io_processor;
 pub mod expression_engine;
 pub mod test;
+
+/// Instrumented `Mutex` for lock-order verification; exists only with feature `Verif_Hooks`.
+#[cfg(feature = "Verif_Hooks")]
+pub mod verif_sync;
